@@ -16,6 +16,7 @@ package c07
 
 import (
 	"bytes"
+	"errors"
 	"fmt"
 	"os"
 	"strings"
@@ -90,7 +91,15 @@ func runT(t *testing.T, pg *progT, start uint16, prefix []int) (x *sched.Exec, k
 		}
 		s := sched.New(prefix)
 		s.UnlockPoints = pg.unlock
+		// horizon: the programs write at most a dozen bytes and poll at most polls+12 times; a send loop
+		// (ClientDnsConnection.outChunkAdded) that is still exchanging after 2000 rounds never advances
+		var exchanges atomic.Int64
+		var livelock atomic.Bool
 		sendAndReceive := func(chunk *util.Packet) error {
+			if exchanges.Add(1) > 2000 {
+				livelock.Store(true)
+				return errors.New("verif: exchange horizon reached")
+			}
 			commMutex.Lock()
 			defer commMutex.Unlock()
 			r := req{ack: p.cIn.NextSeqNo - 1, pkt: chunk}
@@ -226,6 +235,8 @@ func runT(t *testing.T, pg *progT, start uint16, prefix []int) (x *sched.Exec, k
 				kind, detail = "T|deadlock-after-close", x.Deadlock
 			case x.Capped:
 				kind, detail = "T|livelock", "step limit reached"
+			case livelock.Load():
+				kind, detail = "T|livelock", "more than 2000 exchanges for a program that writes a dozen bytes: the send loop re-sends the same fragment without ever advancing"
 			case !bytes.HasPrefix(cAcc, sRead):
 				kind, detail = "T|not-a-prefix|client->server", fmt.Sprintf("server read % x, client's writes accepted % x", sRead, cAcc)
 			case !bytes.HasPrefix(sAcc, cRead):
@@ -248,6 +259,8 @@ func runT(t *testing.T, pg *progT, start uint16, prefix []int) (x *sched.Exec, k
 			kind, detail = "T|deadlock", x.Deadlock
 		case x.Capped:
 			kind, detail = "T|livelock", "step limit reached"
+		case livelock.Load():
+			kind, detail = "T|livelock", "more than 2000 exchanges for a program that writes a dozen bytes: the send loop re-sends the same fragment without ever advancing"
 		case e != "":
 			kind, detail = "T|exchange-error", e
 		default:
